@@ -32,6 +32,12 @@ def L5():
     return spec({"b": node(16, 1), "c": node(16, 1)}, [edge("b", "c", comm=1)], "b")
 
 
+def L6(cm=16):
+    """supervisor b <- a over a non-blocking skip connection with a long communication delay, a <- b blocking: under a
+    throttled simulated clock a message of a is still 'travelling' (its push task sleeps) when the user stops early"""
+    return spec({"a": node(8, 1), "b": node(16, 1)}, [edge("a", "b", comm=cm, skip=True), edge("b", "a", blocking=True, comm=1)], "b")
+
+
 def L1(ra=16, rb=16, ca=1, cb=1, cm=1, w=1, jitter="LATEST"):
     return spec({"a": node(ra, ca), "b": node(rb, cb)}, [edge("a", "b", window=w, comm=cm, jitter=jitter)], "b")
 
